@@ -585,6 +585,7 @@ def run(ctx, deep=False):
     scripts = c09.generated_scripts(ctx, gens, 5000 if thorough else 300)
     own = [sc for sc in scens if sc["gen"] in gens]
     full_stack(ctx, thorough)
+    full_stack_nested_loss(ctx, thorough)
     scripts += [(sc["gen"], "c14." + sc["family"], sc["ops"]) for sc in own]
     c09.tie(ctx, scripts, "C14")
 
@@ -621,6 +622,51 @@ def full_stack(ctx, thorough):
                     break
 
 
+def _nested_scenario(delay, lat):
+    import fullstack
+    texts = {5: b"ER05 compressor", 7: b"ER07 fan locked"}
+    return dict(inst=fullstack.INST, horizon=400, latency=lat, ac_state=[dict(id=0, power=1, mode=4, fan=0, setpoint=22, temp=235, err=0)], err_text={0: b""},
+                changes=[(100, 0, 5, texts[5]), (102 if lat else 110, 0, 7, texts[7])], faults=[(100, "failw")], pushes=[101] + ([] if lat else [111]),
+                callback_delay=delay)
+
+
+def _error_info_of(view):
+    import re
+    m = re.search(r"error_info=(None|Err\(code=(\d+),description=(s[0-9a-f]*|None)\))", view)
+    return None if m is None or m.group(1) == "None" else (int(m.group(2)), None if m.group(3) == "None" else bytes.fromhex(m.group(3)[1:]))
+
+
+def full_stack_nested_loss(ctx, thorough):
+    """the loss of the connection is discovered by a write the client issues WHILE IT IS HANDLING A FRAME (the error-text request sent
+    from inside the AC status handler), with application callbacks that take their time; the console's state changes once more while
+    the client is away.  After the reconnection the client must converge to what the console reports then."""
+    import re
+    import fullstack
+    texts = {5: b"ER05 compressor", 7: b"ER07 fan locked"}
+    for gen in (4, 5):
+        for delay in ((0, 1, 2, 3, 5, 10, 40) if thorough else (0, 1, 3, 10)):
+            for lat in (0, 2, 4, 9):
+                # connecting takes `lat` ticks: the console's error changes again one tick after the loss, i.e. before the refresh; with an
+                # immediate reconnection (lat 0) it changes ten ticks later and the console pushes the new status itself
+                sc = _nested_scenario(delay, lat)
+                b = fullstack.run(gen, sc)
+                ctx.case(("full-stack-nested-loss", gen, delay, lat))
+                if b.get("init_result") is not True:
+                    ctx.tie_broken("C14:console-script", "the full-stack console no longer initialises the AirTouch %d object" % gen)
+                    continue
+                m = re.search(r"error_info=(None|Err\(code=(\d+),description=(s[0-9a-f]*|None)\))", b["view"])
+                got = None if m is None or m.group(1) == "None" else (int(m.group(2)), None if m.group(3) == "None" else bytes.fromhex(m.group(3)[1:]))
+                want = (7, texts[7])
+                lost = [e for e in b["event_log"] if e[1] in ("write_fault", "lost")]
+                ctx.count("full-stack:nested-loss:%s:%s" % ("loss-seen" if lost else "no-loss", "ok" if got == want else "differs"))
+                if got != want:
+                    ctx.violation("C14:%d:full-stack:nested-loss" % gen, "AirTouch %d over the real socket: the write of the error-text request (sent while the AC status frame "
+                                  "that reports error 5 is being handled; application callbacks take %d ticks) fails because the path is gone; the client reconnects; meanwhile "
+                                  "the console's error became 7 '%s'. %d ticks later the client shows error_info = %s" % (gen, delay, texts[7].decode(), 400 - 101, got),
+                                  kind="history", level="full-stack-nested", gen=gen, delay=delay, latency=lat, implementation_output=str(got), spec_verdict=str(want))
+                    return
+
+
 def search(ctx):
     if ctx.tier != "thorough":
         saved = list(ctx.broken)
@@ -630,6 +676,21 @@ def search(ctx):
 
 def replay(ctx, data):
     logging.disable(logging.CRITICAL)
+    if data.get("level") == "full-stack-nested":
+        import fullstack
+        b = fullstack.run(data["gen"], _nested_scenario(data["delay"], data["latency"]))
+        got = _error_info_of(b["view"])
+        for e in b["event_log"]:
+            if e[0] >= 99:
+                print("   ", e)
+        print("the client shows error_info =", got, "; the console reports (7, b'ER07 fan locked')")
+        return 0 if got == (7, b"ER07 fan locked") else 1
+    if data.get("level") == "full-stack":
+        import fullstack
+        sc = dict(data["scenario"], inst=fullstack.INST)
+        print("scenario", sc)
+        print("observed", data.get("implementation_output"), "expected", data.get("spec_verdict"))
+        return 1
     sc = data["scenario"]
     bad, outs = evaluate(ctx, sc)
     now = 0
